@@ -4,7 +4,6 @@ import (
 	"fmt"
 	"go/constant"
 	"go/token"
-	"go/types"
 	"regexp"
 	"sort"
 	"strings"
@@ -323,27 +322,31 @@ func ruleTMPLCTXARITY(c *Ctx) {
 	}
 }
 
-// DTX(alias-elision): ExtractGoImports prints `alias "path"` and elides the alias when it is
-// the default one. Eliding is only sound when the alias is the last segment of the path; in every
-// other case the alias must be written (writing it is always harmless). The condition that
-// governs the write of imp.alias is read from the SSA and evaluated - by a small evaluator of
-// string predicates, not by running the function - on a table of (path, alias) pairs whose alias
-// is not the last path segment; it must be true for each of them.
+// GUARD(alias-elision): ExtractGoImports prints `alias "path"` and elides the alias when it is
+// the default one. Eliding is only sound when the alias is the last segment of the path, and a
+// decision about "the last segment" has to locate the segment boundary: the backward slice of the
+// conditions under which the write of imp.alias is skipped must contain the separator "/" (as a
+// string or byte constant) or a call of path.Base. A test on path and alias alone (HasSuffix(path,
+// alias)) also elides `"path/filepath as path"`, and the generated file does not build. This is a
+// necessary condition only: it does not decide that a condition which mentions "/" is right.
 func ruleALIASELISION(c *Ctx) {
-	const rule = "DTX(alias-elision)"
+	const rule = "GUARD(alias-elision)"
 	key := "gen.ExtractGoImports:alias"
 	f := c.SSAFunc("gen", "ExtractGoImports")
 	if f == nil {
 		c.Lost(rule, key, "function not found")
 		return
 	}
-	isField := func(v ssa.Value, name string) bool {
+	fieldOfLoad := func(v ssa.Value) string {
 		ld, ok := v.(*ssa.UnOp)
 		if !ok || ld.Op != token.MUL {
-			return false
+			return ""
 		}
 		fa, ok := ld.X.(*ssa.FieldAddr)
-		return ok && fieldName(fa.X.Type(), fa.Field) == name
+		if !ok {
+			return ""
+		}
+		return fieldName(fa.X.Type(), fa.Field)
 	}
 	var write *ssa.Call
 	for _, b := range f.Blocks {
@@ -353,7 +356,7 @@ func ruleALIASELISION(c *Ctx) {
 				continue
 			}
 			g := call.Call.StaticCallee()
-			if g == nil || g.Name() != "WriteString" || len(call.Call.Args) != 2 || !isField(call.Call.Args[1], "alias") {
+			if g == nil || g.Name() != "WriteString" || len(call.Call.Args) != 2 || fieldOfLoad(call.Call.Args[1]) != "alias" {
 				continue
 			}
 			write = call
@@ -363,188 +366,82 @@ func ruleALIASELISION(c *Ctx) {
 		c.Lost(rule, key, "no WriteString(imp.alias) found")
 		return
 	}
-	loops := naturalLoops(f)
-	lp := innermostLoop(loops, write.Block())
+	lp := innermostLoop(naturalLoops(f), write.Block())
 	var conds []gcond
 	for _, g := range flattenConds(governing(write.Block())) {
 		if lp != nil && g.If != nil && lp.Body[g.If.Block()] && g.If.Block() != lp.Header {
 			conds = append(conds, g)
 		}
 	}
-	type sv struct {
-		s    string
-		i    int64
-		b    bool
-		kind byte // s i b
-	}
-	var eval func(v ssa.Value, env map[string]string, d int) (sv, bool)
-	eval = func(v ssa.Value, env map[string]string, d int) (sv, bool) {
-		if d > 12 {
-			return sv{}, false
-		}
-		switch x := v.(type) {
-		case *ssa.Const:
-			if x.Value == nil {
-				return sv{}, false
-			}
-			switch x.Value.Kind() {
-			case constant.String:
-				return sv{s: constant.StringVal(x.Value), kind: 's'}, true
-			case constant.Int:
-				return sv{i: x.Int64(), kind: 'i'}, true
-			case constant.Bool:
-				return sv{b: constant.BoolVal(x.Value), kind: 'b'}, true
-			}
-		case *ssa.UnOp:
-			if x.Op == token.MUL {
-				for _, n := range []string{"alias", "path"} {
-					if isField(x, n) {
-						return sv{s: env[n], kind: 's'}, true
-					}
-				}
-				return sv{}, false
-			}
-			if x.Op == token.NOT {
-				a, ok := eval(x.X, env, d+1)
-				return sv{b: !a.b, kind: 'b'}, ok && a.kind == 'b'
-			}
-		case *ssa.Convert:
-			return eval(x.X, env, d+1)
-		case *ssa.BinOp:
-			a, ok1 := eval(x.X, env, d+1)
-			b, ok2 := eval(x.Y, env, d+1)
-			if !ok1 || !ok2 || a.kind != b.kind {
-				return sv{}, false
-			}
-			if a.kind == 's' {
-				switch x.Op {
-				case token.EQL:
-					return sv{b: a.s == b.s, kind: 'b'}, true
-				case token.NEQ:
-					return sv{b: a.s != b.s, kind: 'b'}, true
-				case token.ADD:
-					return sv{s: a.s + b.s, kind: 's'}, true
-				}
-			}
-			if a.kind == 'i' {
-				switch x.Op {
-				case token.EQL:
-					return sv{b: a.i == b.i, kind: 'b'}, true
-				case token.NEQ:
-					return sv{b: a.i != b.i, kind: 'b'}, true
-				case token.LSS:
-					return sv{b: a.i < b.i, kind: 'b'}, true
-				case token.LEQ:
-					return sv{b: a.i <= b.i, kind: 'b'}, true
-				case token.GTR:
-					return sv{b: a.i > b.i, kind: 'b'}, true
-				case token.GEQ:
-					return sv{b: a.i >= b.i, kind: 'b'}, true
-				case token.ADD:
-					return sv{i: a.i + b.i, kind: 'i'}, true
-				case token.SUB:
-					return sv{i: a.i - b.i, kind: 'i'}, true
-				}
-			}
-		case *ssa.Slice:
-			s, ok := eval(x.X, env, d+1)
-			if !ok || s.kind != 's' {
-				return sv{}, false
-			}
-			lo, hi := int64(0), int64(len(s.s))
-			if x.Low != nil {
-				l, ok := eval(x.Low, env, d+1)
-				if !ok {
-					return sv{}, false
-				}
-				lo = l.i
-			}
-			if x.High != nil {
-				h, ok := eval(x.High, env, d+1)
-				if !ok {
-					return sv{}, false
-				}
-				hi = h.i
-			}
-			if lo < 0 || hi > int64(len(s.s)) || lo > hi {
-				return sv{}, false
-			}
-			return sv{s: s.s[lo:hi], kind: 's'}, true
-		case *ssa.Call:
-			if bi, ok := x.Call.Value.(*ssa.Builtin); ok && bi.Name() == "len" {
-				a, ok := eval(x.Call.Args[0], env, d+1)
-				return sv{i: int64(len(a.s)), kind: 'i'}, ok && a.kind == 's'
-			}
-			g := x.Call.StaticCallee()
-			if g == nil || g.Pkg == nil {
-				return sv{}, false
-			}
-			var as []sv
-			for _, a := range x.Call.Args {
-				r, ok := eval(a, env, d+1)
-				if !ok {
-					return sv{}, false
-				}
-				as = append(as, r)
-			}
-			switch g.Pkg.Pkg.Path() + "." + g.Name() {
-			case "strings.HasSuffix":
-				return sv{b: strings.HasSuffix(as[0].s, as[1].s), kind: 'b'}, true
-			case "strings.HasPrefix":
-				return sv{b: strings.HasPrefix(as[0].s, as[1].s), kind: 'b'}, true
-			case "strings.TrimSuffix":
-				return sv{s: strings.TrimSuffix(as[0].s, as[1].s), kind: 's'}, true
-			case "strings.TrimPrefix":
-				return sv{s: strings.TrimPrefix(as[0].s, as[1].s), kind: 's'}, true
-			case "strings.Contains":
-				return sv{b: strings.Contains(as[0].s, as[1].s), kind: 'b'}, true
-			case "strings.LastIndex":
-				return sv{i: int64(strings.LastIndex(as[0].s, as[1].s)), kind: 'i'}, true
-			case "strings.LastIndexByte":
-				return sv{i: int64(strings.LastIndexByte(as[0].s, byte(as[1].i))), kind: 'i'}, true
-			case "path.Base":
-				s := as[0].s
-				if i := strings.LastIndex(s, "/"); i >= 0 {
-					s = s[i+1:]
-				}
-				return sv{s: s, kind: 's'}, true
-			}
-		}
-		return sv{}, false
-	}
-	// (path, alias) pairs in which the alias is NOT the last path segment
-	table := [][2]string{
-		{"encoding/json", "enc"},
-		{"path/filepath", "path"},
-		{"example.com/xpath", "path"},
-		{"fmt", "f"},
-		{"a/b/context", "text"},
-		{"strings", "s"},
-		{"go/ast", "go"},
-	}
 	if len(conds) == 0 {
 		c.Ok(rule, key, write.Pos(), "the alias is always written")
 		return
 	}
-	for _, row := range table {
-		env := map[string]string{"path": row[0], "alias": row[1]}
-		written := true
-		for _, g := range conds {
-			r, ok := eval(g.V, env, 0)
-			if !ok || r.kind != 'b' {
-				c.Undec(rule, key, g.V.Pos(), "the condition %s that governs the write of the import alias uses an operation the string evaluator does not know", vpath(g.V))
-				return
-			}
-			if r.b != g.Pol {
-				written = false
-			}
-		}
-		if !written {
-			c.Bad(rule, key, write.Pos(), "for the import \"%s as %s\" the alias is elided although it is not the last segment of the path: the generated file imports %q under its default name while the code refers to %s (imported and not used / undefined: %s)", row[0], row[1], row[0], row[1], row[1])
+	separator, other := false, ""
+	seen := map[ssa.Value]bool{}
+	var walk func(v ssa.Value, d int)
+	walk = func(v ssa.Value, d int) {
+		if v == nil || seen[v] || d > 14 {
 			return
 		}
+		seen[v] = true
+		switch x := v.(type) {
+		case *ssa.Const:
+			if x.Value != nil {
+				switch x.Value.Kind() {
+				case constant.String:
+					if strings.Contains(constant.StringVal(x.Value), "/") {
+						separator = true
+					}
+				case constant.Int:
+					if x.Int64() == '/' {
+						separator = true
+					}
+				}
+			}
+		case *ssa.UnOp:
+			if fn := fieldOfLoad(x); fn != "" {
+				if fn != "alias" && fn != "path" {
+					other = fn
+				}
+				return
+			}
+			walk(x.X, d+1)
+		case *ssa.BinOp:
+			walk(x.X, d+1)
+			walk(x.Y, d+1)
+		case *ssa.Convert:
+			walk(x.X, d+1)
+		case *ssa.Slice:
+			walk(x.X, d+1)
+			walk(x.Low, d+1)
+			walk(x.High, d+1)
+		case *ssa.Phi:
+			for _, e := range x.Edges {
+				walk(e, d+1)
+			}
+		case *ssa.Extract:
+			walk(x.Tuple, d+1)
+		case *ssa.Call:
+			if g := x.Call.StaticCallee(); g != nil && g.Pkg != nil && g.Name() == "Base" && (g.Pkg.Pkg.Path() == "path" || g.Pkg.Pkg.Path() == "path/filepath") {
+				separator = true
+			}
+			for _, a := range x.Call.Args {
+				walk(a, d+1)
+			}
+		}
 	}
-	c.Ok(rule, key, write.Pos(), "the alias is written for each of %d (path, alias) pairs whose alias is not the last path segment (%d governing conditions evaluated)", len(table), len(conds))
+	for _, g := range conds {
+		walk(g.V, 0)
+	}
+	switch {
+	case separator:
+		c.Ok(rule, key, write.Pos(), "the conditions under which the alias is elided locate the segment boundary (%d conditions, %d values in their slice)", len(conds), len(seen))
+	case other != "":
+		c.Undec(rule, key, write.Pos(), "the elision of the alias depends on the field %s, whose computation this rule does not follow", other)
+	default:
+		c.Bad(rule, key, write.Pos(), "the alias is elided by a test on path and alias that never looks at the separator: it cannot tell \"alias is the last path segment\" from \"path ends with the letters of alias\" (\"path/filepath as path\" is printed as a plain import of path/filepath; the generated file refers to path and does not build)")
+	}
 }
 
 // AGREE(min-update): `if A < B { B = V }` states the belief that A is the new bound of B. When V
@@ -710,4 +607,3 @@ func sortedBoolKeys(m map[string]bool) []string {
 	sort.Strings(out)
 	return out
 }
-var _ types.Type
